@@ -20,6 +20,7 @@ from ..facts import instance_fields, init_of
 from ..logic import known
 from ..model import AnalysisError, ClassInfo, unparse, walk_no_nested, canonical_name
 from ..symtext import Expander, effect_calls
+from ..dataflow import private_closure
 
 DECIDED = [
     "ALIAS-1 each clone chain must-writes every mutable container field of the copy with a fresh, element-fresh container and detaches the copy (_parent = None)",
@@ -157,6 +158,25 @@ def run(prog, rep):
     g = S.cfg(vs)
     stores = [n for n in g.nodes if n.kind == "stmt" and isinstance(n.ast, ast.Assign)
               and unparse(n.ast.targets[0]) == "%s._values" % vs.params[0]]
+    # a list that is emptied or filled in place is the list clone() shares with the original (clone relies on this setter to unshare it)
+    me_v = vs.params[0]
+    for n in g.nodes:
+        for r in n.expr_roots() if n.kind != "stmt" or not isinstance(n.ast, ast.Delete) else []:
+            for c in calls_in(r):
+                if isinstance(c.func, ast.Attribute) and unparse(c.func.value) == "%s._values" % me_v and \
+                        c.func.attr in ("clear", "append", "extend", "insert", "pop", "remove", "sort", "reverse"):
+                    rep.fail("ALIAS-1", "values setter|in place|%s" % c.func.attr,
+                             "the values setter changes the stored list in place (`%s`) instead of binding a fresh one: a clone made from it keeps "
+                             "sharing the list with the original" % unparse(c)[:50], where(vs, c),
+                             witness="clone an empty Property that has a dtype, extend the clone: the original has the values too")
+        if n.kind == "stmt" and isinstance(n.ast, (ast.Delete, ast.Assign, ast.AugAssign)):
+            tg = n.ast.targets if isinstance(n.ast, (ast.Delete, ast.Assign)) else [n.ast.target]
+            if any(isinstance(t, ast.Subscript) and unparse(t.value) == "%s._values" % me_v for t in tg) or \
+                    (isinstance(n.ast, ast.AugAssign) and unparse(n.ast.target) == "%s._values" % me_v):
+                rep.fail("ALIAS-1", "values setter|in place|%s" % type(n.ast).__name__,
+                         "the values setter changes the stored list in place (`%s`) instead of binding a fresh one: a clone made from it keeps "
+                         "sharing the list with the original" % unparse(n.ast)[:50], where(vs, n.ast),
+                         witness="clone an empty Property that has a dtype, extend the clone: the original has the values too")
     rep.floor("ALIAS-1", len(stores), 2, "stores to _values in the values setter")
     for n in stores:
         v = n.ast.value
@@ -280,6 +300,7 @@ def run(prog, rep):
 
     eq1_rule(prog, rep)
     clone2_rule(prog, rep)
+    direct_children_rule(prog, rep)
 
     # ----------------------------------------------------------------- LEAF-1
     rep.rule("LEAF-1", "Section.export_leaf: every clone call passes keep_id=True; the Section clones pass children=False; "
@@ -476,6 +497,37 @@ def eq1_rule(prog, rep, rule="EQ-1"):
               "BaseObject.__eq__ treats %s specially: objects that differ there compare equal" % extra,
               where(at[0][0], at[0][1]) if at else f.where,
               witness="two Sections that differ only in that attribute are == ; a restored / copied document is reported equal although it is not")
+
+
+def direct_children_rule(prog, rep, rule="DIRECT-1"):
+    """clone / contains work on the direct children, itervalues hands out copies"""
+    rep.rule(rule, "Sectionable.clone / BaseSection.clone / BaseSection.contains / Sectionable.contains call none of the recursive traversals "
+                   "(itersections, iterproperties, itervalues - `recursive=` is ignored and max_depth=1 includes the sub-Sections): a copy gets "
+                   "exactly the children of the original, a counterpart is looked for among the own children; Sectionable.itervalues yields "
+                   "`<prop>.values` (the copying getter), nothing else")
+    n = 0
+    for qn in ("base.Sectionable.clone", "section.BaseSection.clone", "section.BaseSection.contains", "base.Sectionable.contains"):
+        try:
+            f = prog.func(qn)
+        except Exception:
+            continue
+        n += 1
+        for fx in private_closure(f):
+            bad = [c for c in calls_in(fx.node) if isinstance(c.func, ast.Attribute) and c.func.attr in ("itersections", "iterproperties", "itervalues")]
+            rep.check(not bad, rule, "%s%s touches direct children only" % (f.short, "" if fx is f else " (via %s)" % fx.name), "ok",
+                      "%s reaches its children through `%s`, a traversal of the whole subtree: grandchildren are treated as children"
+                      % (f.short, unparse(bad[0])[:60] if bad else ""), where(fx, bad[0]) if bad else f.where,
+                      witness="merge a branch two levels deep into a Section that lacks it: the grandchildren are appended a second time one level up")
+    rep.floor(rule, n, 3, "clone / contains functions")
+    iv = prog.func("base.Sectionable.itervalues")
+    ys = [y for y in walk_no_nested(iv.node) if isinstance(y, ast.Yield) and y.value is not None]
+    rep.floor(rule, len(ys), 1, "yield statements in itervalues")
+    x = Expander(iv, only_locations=True)
+    for y in ys:
+        t = x.text(y.value)
+        rep.check(bool(re.match(r"^(EACH\(.*\)|\w+)\.values$", t)), rule, "itervalues yields %s" % t[:40], "<prop>.values",
+                  "itervalues yields `%s` instead of the copy made by the values getter: the inner lists of tuple values are the stored ones" % t[:60],
+                  where(iv, y), witness="edit a tuple item in a list yielded by itervalues(): the Property changes")
 
 
 def clone2_rule(prog, rep, rule="CLONE-2"):
